@@ -55,6 +55,9 @@ def _is_scalar(x):
     return isinstance(x, (Sym, int, float, bool, complex, Fraction, _np.generic))
 
 
+NARROW_EVENTS: list = []  # (symbolic integer, narrow float dtype) recorded when an integer is stored in a float32 / float16 array
+
+
 def _cast_elem(v, dtype):
     """Value semantics of storing v into an array of dtype."""
     k = dtype.kind
@@ -85,6 +88,8 @@ def _cast_elem(v, dtype):
             return v.to_int_code(info=str(dtype))
         if k == "b":
             return v != 0
+        if k == "f" and dtype.itemsize in (2, 4):
+            return v.round_to(8 * dtype.itemsize)  # float32 / float16 storage rounds
         return v
     if k == "b":
         if isinstance(v, SymBool):
@@ -99,6 +104,10 @@ def _cast_elem(v, dtype):
     if k == "f":
         if isinstance(v, SymBool):
             v = v._i()
+        if dtype.itemsize < 8:
+            # a symbolic number stored in a float32 / float16 array: if it is an integer (a code, a count) it is exact only up to
+            # the mantissa - side condition for the harness (real arithmetic itself does not round)
+            NARROW_EVENTS.append((v, dtype))
         if v.is_int:
             return SymReal(z3.ToReal(v.t))
         return v
@@ -923,6 +932,8 @@ def _binary(name, a, b):
     dt = gr.dtype
     if dt.kind in "iu" or dt.kind == "b":
         out = [_cast_elem(v, dt) if not (dt.kind == "b") else v for v in out]
+    elif dt.kind == "f" and dt.itemsize in (2, 4):
+        out = [_cast_elem(v, dt) if isinstance(v, core.SymFP) else v for v in out]  # narrow float results are rounded
     return SymArray.from_elems(out, gr.shape, dt)
 
 
